@@ -1,4 +1,4 @@
-import CardVerif.Model.Pot
+import CardModel.Model.Pot
 /-!
 # Side pots, stated chip by chip (C02)
 
